@@ -1,6 +1,6 @@
 // Synthetic evaluation networks (DESIGN.md 4.2).  The sandbox ships an emptied
 // nndata.tbin.compr, so every engine-level check links one of these instead.
-// usage: gennet <out.compr> <name>     name in {rand1, rand2, material, extreme}
+// usage: gennet <out.compr> <name>     name in {rand1, rand2, material, extreme, overflow}
 #include "nntypes.hpp"
 #include "random.hpp"
 #include <fstream>
@@ -22,13 +22,16 @@ int main(int argc, char** argv) {
     std::string name = argv[2];
     auto netP = NetData::create();
     NetData& net = *netP;
-    U64 seed = name == "rand2" ? 20260002 : name == "extreme" ? 777 : 20260001;
+    U64 seed = name == "rand2" ? 20260002 : name == "extreme" ? 777 : name == "overflow" ? 4242 : 20260001;
     Random rnd(seed);
     auto r = [&](int lo, int hi) { return lo + (int)(rnd.nextU64() % (U64)(hi - lo + 1)); };
     const int n1 = NetData::n1;
-    if (name == "rand1" || name == "rand2" || name == "extreme") {
-        int a = name == "rand1" ? 20 : name == "rand2" ? 60 : 1000;
-        int b = name == "rand1" ? 50 : name == "rand2" ? 200 : 2000;
+    if (name == "rand1" || name == "rand2" || name == "extreme" || name == "overflow") {
+        // "overflow": first-layer weights so large that the 16-bit accumulators wrap around in ordinary positions; every code path
+        // (generic and SIMD, incremental and from scratch) must wrap in the same way
+        int a = name == "rand1" ? 20 : name == "rand2" ? 60 : name == "overflow" ? 9000 : 1000;
+        int b = name == "rand1" ? 50 : name == "rand2" ? 200 : name == "overflow" ? 30000 : 2000;
+        if (name == "overflow") name = "extreme";      // later layers as in the extreme net
         int w2 = name == "rand1" ? 16 : name == "rand2" ? 40 : 127;
         int w3 = name == "rand1" ? 32 : name == "rand2" ? 64 : 127;
         int w4 = name == "rand1" ? 64 : name == "rand2" ? 100 : 127;
